@@ -30,7 +30,9 @@ func verifTreeNewNode(t *Tree) {
 	}
 	old := t.buffer.buf
 	nb := Calloc(len(old), t.buffer.tag)
-	copy(nb, old)
+	// Like Grow, only the used part [0, offset) is carried over: a page that
+	// reaches into the spare capacity beyond it loses that part.
+	copy(nb, old[:t.buffer.offset])
 	t.buffer.buf = nb
 	t.data = t.buffer.Bytes()
 	// The old memory is left as it is (exactly what Grow does in builds without
